@@ -215,6 +215,19 @@ fn run_case(case: &Value) -> Value {
                     for w in toks.windows(6) {
                         let is_source = matches!(&w[0], proc_macro2::TokenTree::Ident(i) if i == "SOURCE");
                         if is_source {
+                            // include variant: SOURCE : & str = include_str ! ( <one string literal> )
+                            if let (proc_macro2::TokenTree::Ident(i), Some(proc_macro2::TokenTree::Group(g))) = (&w[5], toks.get(toks.iter().position(|t| std::ptr::eq(t, &w[5])).unwrap_or(0) + 2)) {
+                                if i == "include_str" {
+                                    let inner: Vec<proc_macro2::TokenTree> = g.stream().into_iter().collect();
+                                    res["source_include_arg"] = match inner.as_slice() {
+                                        [proc_macro2::TokenTree::Literal(l)] => match syn::parse_str::<syn::LitStr>(&l.to_string()) {
+                                            Ok(ls) => json!({"literal": ls.value()}),
+                                            Err(_) => json!({"other": l.to_string()}),
+                                        },
+                                        _ => json!({"other": g.stream().to_string()}),
+                                    };
+                                }
+                            }
                             if let proc_macro2::TokenTree::Literal(l) = &w[5] {
                                 let t = l.to_string();
                                 if t.starts_with('"') && t.ends_with('"') && t.len() >= 2 {
